@@ -16,6 +16,16 @@ pub assume_specification[ <Color as PartialEq>::eq ](a: &Color, b: &Color) -> (r
 
 pub struct Entity<K, V> { pub key: K, pub val: V }
 
+// stands for #[derive(Clone)]; assumption on the user's types: Clone returns an equal value
+impl<K: Clone, V: Clone> Clone for Entity<K, V> {
+    #[verifier::external_body]
+    fn clone(&self) -> (r: Self)
+        ensures r == *self,
+    {
+        Entity { key: self.key.clone(), val: self.val.clone() }
+    }
+}
+
 pub struct Node<K, V> {
     pub parent: u32,
     pub left: u32,
@@ -52,28 +62,43 @@ pub open spec fn link_in_tree<K, V>(buf: Buf<K, V>, g: G, l: u32) -> bool {
     l != EMPTY_REF && in_tree(buf, g, l as int)
 }
 
-// local structural condition of an in-tree node
-pub open spec fn node_ok<K, V>(buf: Buf<K, V>, g: G, root: u32, i: int) -> bool {
+// local structural condition of an in-tree node, in four parts
+pub open spec fn range_ok(g: G, i: int) -> bool {
+    0 <= g.ng[i].a <= g.ng[i].pos < g.ng[i].b <= g.ord.len()
+}
+
+pub open spec fn left_ok<K, V>(buf: Buf<K, V>, g: G, i: int) -> bool {
     let nd = buf[i];
-    let p = g.ng[i].pos;
-    let a = g.ng[i].a;
-    let b = g.ng[i].b;
-    &&& 0 <= a <= p < b <= g.ord.len()
-    &&& if a == p { nd.left == EMPTY_REF } else {
-            &&& link_in_tree(buf, g, nd.left)
-            &&& g.ng[nd.left as int].a == a && g.ng[nd.left as int].b == p
-            &&& buf[nd.left as int].parent as int == i
-        }
-    &&& if p + 1 == b { nd.right == EMPTY_REF } else {
-            &&& link_in_tree(buf, g, nd.right)
-            &&& g.ng[nd.right as int].a == p + 1 && g.ng[nd.right as int].b == b
-            &&& buf[nd.right as int].parent as int == i
-        }
-    &&& if nd.parent == EMPTY_REF { i == root as int } else {
-            &&& i != root as int
-            &&& link_in_tree(buf, g, nd.parent)
-            &&& (buf[nd.parent as int].left as int == i || buf[nd.parent as int].right as int == i)
-        }
+    if g.ng[i].a == g.ng[i].pos { nd.left == EMPTY_REF } else {
+        &&& link_in_tree(buf, g, nd.left)
+        &&& g.ng[nd.left as int].a == g.ng[i].a && g.ng[nd.left as int].b == g.ng[i].pos
+        &&& buf[nd.left as int].parent as int == i
+    }
+}
+
+pub open spec fn right_ok<K, V>(buf: Buf<K, V>, g: G, i: int) -> bool {
+    let nd = buf[i];
+    if g.ng[i].pos + 1 == g.ng[i].b { nd.right == EMPTY_REF } else {
+        &&& link_in_tree(buf, g, nd.right)
+        &&& g.ng[nd.right as int].a == g.ng[i].pos + 1 && g.ng[nd.right as int].b == g.ng[i].b
+        &&& buf[nd.right as int].parent as int == i
+    }
+}
+
+pub open spec fn parent_ok<K, V>(buf: Buf<K, V>, g: G, root: u32, i: int) -> bool {
+    let nd = buf[i];
+    if nd.parent == EMPTY_REF { i == root as int } else {
+        &&& i != root as int
+        &&& link_in_tree(buf, g, nd.parent)
+        &&& (buf[nd.parent as int].left as int == i || buf[nd.parent as int].right as int == i)
+    }
+}
+
+pub open spec fn node_ok<K, V>(buf: Buf<K, V>, g: G, root: u32, i: int) -> bool {
+    &&& range_ok(g, i)
+    &&& left_ok(buf, g, i)
+    &&& right_ok(buf, g, i)
+    &&& parent_ok(buf, g, root, i)
 }
 
 #[verifier::opaque]
@@ -320,7 +345,7 @@ pub open spec fn sibling_of<K, V>(buf: Buf<K, V>, n: int) -> u32 {
 }
 
 pub open spec fn same_shape_at<K, V>(b1: Buf<K, V>, b0: Buf<K, V>, n: int) -> bool {
-    b1[n].left == b0[n].left && b1[n].right == b0[n].right
+    b1[n].left == b0[n].left && b1[n].right == b0[n].right && b1[n].color == b0[n].color
 }
 
 // facts the delete fix-up needs about the neighbourhood of the deficit node n (not the root)
@@ -443,6 +468,565 @@ pub proof fn lemma_del_case34<K: Ord, V>(b0: Buf<K, V>, g0: G, r0: u32, n: int, 
         }
     }
     g1
+}
+
+
+// ---------------------------------------------------------------------------------------------
+// removal surgery on the ghost order
+
+#[verifier::opaque]
+pub open spec fn sorted_skip<K: Ord, V>(buf: Buf<K, V>, g: G, skip: int) -> bool {
+    forall|q1: int, q2: int| 0 <= q1 < q2 < g.ord.len() && g.ord[q1] != 0u32 && g.ord[q2] != 0u32 && q1 != skip && q2 != skip
+        ==> key_lt(#[trigger] buf[g.ord[q1] as int].entity.key, #[trigger] buf[g.ord[q2] as int].entity.key)
+}
+
+// sinv, except that the key at position `skip` is not required to be in order
+#[verifier::opaque]
+pub open spec fn sinv_skip<K: Ord, V>(buf: Buf<K, V>, g: G, root: u32, skip: int) -> bool {
+    &&& g.ng.len() == buf.len()
+    &&& 1 <= buf.len() < EMPTY_REF
+    &&& forall|q: int| 0 <= q < g.ord.len() ==> 0 <= (#[trigger] g.ord[q]) as int && (g.ord[q] as int) < buf.len() && g.ng[g.ord[q] as int].pos == q
+    &&& forall|i: int| in_tree(buf, g, i) ==> #[trigger] node_ok(buf, g, root, i)
+    &&& if g.ord.len() == 0 { root == EMPTY_REF } else {
+            &&& link_in_tree(buf, g, root)
+            &&& g.ng[root as int].a == 0 && g.ng[root as int].b == g.ord.len()
+            &&& buf[root as int].parent == EMPTY_REF
+        }
+    &&& sorted_skip(buf, g, skip)
+}
+
+pub proof fn lemma_sinv_to_skip<K: Ord, V>(buf: Buf<K, V>, g: G, root: u32, skip: int)
+    requires sinv(buf, g, root),
+    ensures sinv_skip(buf, g, root, skip),
+{
+    reveal(sinv); reveal(sinv_skip); reveal(sorted); reveal(sorted_skip);
+}
+
+pub open spec fn sh(x: int, q: int) -> int { if x > q { x - 1 } else { x } }
+
+pub open spec fn shift_ng(ng: Seq<NG>, q: int, d: int) -> Seq<NG> {
+    Seq::new(ng.len(), |i: int| if i == d { NG { pos: -1, ..ng[i] } } else {
+        NG { pos: sh(ng[i].pos, q), a: sh(ng[i].a, q), b: sh(ng[i].b, q), bh: ng[i].bh }
+    })
+}
+
+pub open spec fn removed_g(g0: G, d: int) -> G {
+    G { ord: g0.ord.remove(g0.ng[d].pos), ng: shift_ng(g0.ng, g0.ng[d].pos, d) }
+}
+
+pub open spec fn unlink_child<K, V>(nd: Node<K, V>, child: int, repl: u32) -> Node<K, V> {
+    if nd.left as int == child { Node { left: repl, ..nd } } else { Node { right: repl, ..nd } }
+}
+
+pub open spec fn same_membership<K, V>(b1: Buf<K, V>, g1: G, b0: Buf<K, V>, g0: G, d: int) -> bool {
+    &&& !in_tree(b1, g1, d)
+    &&& forall|i: int| i != d ==> (#[trigger] in_tree(b1, g1, i) == in_tree(b0, g0, i))
+}
+
+// a red leaf (a real red leaf, or the red sentinel after the fix-up) is unlinked from its parent
+#[verifier::rlimit(300)]
+pub proof fn lemma_remove_red_leaf<K: Ord, V>(b0: Buf<K, V>, g0: G, r0: u32, d: int, b1: Buf<K, V>) -> (g1: G)
+    requires
+        sinv_skip(b0, g0, r0, g0.ng[d].pos), cinv(b0, g0, -1), in_tree(b0, g0, d),
+        b0[d].left == EMPTY_REF, b0[d].right == EMPTY_REF, b0[d].color == Color::Red,
+        b0[d].parent != EMPTY_REF,
+        b1 =~= b0.update(b0[d].parent as int, unlink_child(b0[b0[d].parent as int], d, EMPTY_REF)),
+    ensures
+        g1 == removed_g(g0, d),
+        sinv(b1, g1, r0), cinv(b1, g1, -1),
+        same_membership(b1, g1, b0, g0, d),
+        same_entities(b1, b0),
+{
+    let q = g0.ng[d].pos;
+    let p = b0[d].parent as int;
+    let g1 = removed_g(g0, d);
+    reveal(sinv_skip); reveal(sinv); reveal(cinv);
+    assert(node_ok(b0, g0, r0, d));
+    assert(node_ok(b0, g0, r0, p));
+    assert(color_ok(b0, g0, d, -1));
+    assert(color_ok(b0, g0, p, -1));
+    assert forall|j: int| 0 <= j < g1.ord.len() implies 0 <= (#[trigger] g1.ord[j]) as int && (g1.ord[j] as int) < b1.len() && g1.ng[g1.ord[j] as int].pos == j by {
+        if j < q { assert(g1.ord[j] == g0.ord[j]); } else { assert(g1.ord[j] == g0.ord[j + 1]); }
+    }
+    assert forall|i: int| i != d implies (#[trigger] in_tree(b1, g1, i) == in_tree(b0, g0, i)) by {
+        if in_tree(b0, g0, i) {
+            let pi = g0.ng[i].pos;
+            if pi < q { assert(g1.ord[pi] == g0.ord[pi]); } else { assert(g1.ord[pi - 1] == g0.ord[pi]); }
+        }
+        if in_tree(b1, g1, i) {
+            let pj = g1.ng[i].pos;
+            if pj < q { assert(g1.ord[pj] == g0.ord[pj]); } else { assert(g1.ord[pj] == g0.ord[pj + 1]); }
+        }
+    }
+    assert(sorted(b1, g1)) by {
+        reveal(sorted); reveal(sorted_skip);
+        assert forall|q1: int, q2: int| 0 <= q1 < q2 < g1.ord.len() && g1.ord[q1] != 0u32 && g1.ord[q2] != 0u32
+            implies key_lt(#[trigger] b1[g1.ord[q1] as int].entity.key, #[trigger] b1[g1.ord[q2] as int].entity.key) by {
+            let o1 = if q1 < q { q1 } else { q1 + 1 };
+            let o2 = if q2 < q { q2 } else { q2 + 1 };
+            assert(g1.ord[q1] == g0.ord[o1]);
+            assert(g1.ord[q2] == g0.ord[o2]);
+            assert(key_lt(b0[g0.ord[o1] as int].entity.key, b0[g0.ord[o2] as int].entity.key));
+        }
+    }
+    assert(g0.ord[q] as int == d);
+    assert forall|i: int| in_tree(b1, g1, i) implies #[trigger] node_ok(b1, g1, r0, i) by {
+        assert(in_tree(b0, g0, i));
+        assert(node_ok(b0, g0, r0, i));
+        assert(g0.ng[i].pos != q);
+        if i != p { assert(b1[i] == b0[i]); }
+        let l = b0[i].left; let r = b0[i].right; let pp = b0[i].parent;
+        if l != EMPTY_REF { assert(node_ok(b0, g0, r0, l as int)); assert(g0.ord[g0.ng[l as int].pos] as int == l as int); }
+        if r != EMPTY_REF { assert(node_ok(b0, g0, r0, r as int)); assert(g0.ord[g0.ng[r as int].pos] as int == r as int); }
+        if pp != EMPTY_REF { assert(node_ok(b0, g0, r0, pp as int)); assert(in_tree(b1, g1, pp as int) == in_tree(b0, g0, pp as int)); }
+        if l != EMPTY_REF && l as int != d { assert(in_tree(b1, g1, l as int) == in_tree(b0, g0, l as int)); }
+        if r != EMPTY_REF && r as int != d { assert(in_tree(b1, g1, r as int) == in_tree(b0, g0, r as int)); }
+    }
+    assert forall|i: int| in_tree(b1, g1, i) implies #[trigger] color_ok(b1, g1, i, -1) by {
+        assert(in_tree(b0, g0, i));
+        assert(node_ok(b0, g0, r0, i));
+        assert(color_ok(b0, g0, i, -1));
+        if i != p { assert(b1[i] == b0[i]); }
+    }
+    g1
+}
+
+
+// the last entry (a childless root) is removed: the tree becomes empty
+pub proof fn lemma_remove_root_leaf<K: Ord, V>(b0: Buf<K, V>, g0: G, r0: u32, d: int) -> (g1: G)
+    requires
+        sinv_skip(b0, g0, r0, g0.ng[d].pos), in_tree(b0, g0, d),
+        b0[d].left == EMPTY_REF, b0[d].right == EMPTY_REF, b0[d].parent == EMPTY_REF,
+    ensures
+        g1 == removed_g(g0, d),
+        g1.ord.len() == 0,
+        sinv(b0, g1, EMPTY_REF), cinv(b0, g1, -1),
+        same_membership(b0, g1, b0, g0, d),
+{
+    let g1 = removed_g(g0, d);
+    reveal(sinv_skip); reveal(sinv); reveal(cinv);
+    assert(node_ok(b0, g0, r0, d));
+    assert(sorted(b0, g1)) by { reveal(sorted); }
+    assert forall|i: int| i != d implies (#[trigger] in_tree(b0, g1, i) == in_tree(b0, g0, i)) by {
+        if in_tree(b0, g0, i) { assert(node_ok(b0, g0, r0, i)); assert(g0.ord[g0.ng[i].pos] as int == i); }
+    }
+    g1
+}
+
+// the overwritten key of a two-children node: the successor's entity is copied one position down the order
+pub proof fn lemma_move_up<K: Ord, V>(b0: Buf<K, V>, g0: G, r0: u32, idx: int, succ: int, b1: Buf<K, V>)
+    requires
+        sinv(b0, g0, r0), cinv(b0, g0, -1), in_tree(b0, g0, idx), in_tree(b0, g0, succ),
+        g0.ng[succ].pos == g0.ng[idx].pos + 1,
+        idx != 0 && succ != 0,
+        b1 =~= b0.update(idx, Node { entity: b0[succ].entity, ..b0[idx] }),
+    ensures
+        sinv_skip(b1, g0, r0, g0.ng[succ].pos), cinv(b1, g0, -1),
+        forall|i: int| in_tree(b1, g0, i) == in_tree(b0, g0, i),
+{
+    reveal(sinv); reveal(sinv_skip); reveal(cinv);
+    let q = g0.ng[idx].pos;
+    assert(g0.ord[q] as int == idx);
+    assert(g0.ord[q + 1] as int == succ);
+    assert(sorted_skip(b1, g0, q + 1)) by {
+        reveal(sorted); reveal(sorted_skip);
+        assert forall|q1: int, q2: int| 0 <= q1 < q2 < g0.ord.len() && g0.ord[q1] != 0u32 && g0.ord[q2] != 0u32 && q1 != q + 1 && q2 != q + 1
+            implies key_lt(#[trigger] b1[g0.ord[q1] as int].entity.key, #[trigger] b1[g0.ord[q2] as int].entity.key) by {
+            let o1 = if q1 == q { q + 1 } else { q1 };
+            let o2 = if q2 == q { q + 1 } else { q2 };
+            assert(g0.ng[g0.ord[q1] as int].pos == q1);
+            assert(g0.ng[g0.ord[q2] as int].pos == q2);
+            assert(b1[g0.ord[q1] as int].entity.key == b0[g0.ord[o1] as int].entity.key);
+            assert(b1[g0.ord[q2] as int].entity.key == b0[g0.ord[o2] as int].entity.key);
+            assert(key_lt(b0[g0.ord[o1] as int].entity.key, b0[g0.ord[o2] as int].entity.key));
+        }
+    }
+    assert forall|i: int| in_tree(b1, g0, i) implies #[trigger] node_ok(b1, g0, r0, i) by {
+        assert(node_ok(b0, g0, r0, i));
+    }
+    assert forall|i: int| in_tree(b1, g0, i) implies #[trigger] color_ok(b1, g0, i, -1) by {
+        assert(color_ok(b0, g0, i, -1));
+    }
+}
+
+
+// the link surgery "d, which has at most one child c (EMPTY_REF if none), is bypassed"
+pub open spec fn bypass_rel<K, V>(b1: Buf<K, V>, r1: u32, b0: Buf<K, V>, r0: u32, d: int, c: u32) -> bool {
+    let p = b0[d].parent;
+    &&& b1.len() == b0.len()
+    &&& c != EMPTY_REF ==> b1[c as int] == (Node { parent: p, ..b0[c as int] })
+    &&& p != EMPTY_REF ==> b1[p as int] == unlink_child(b0[p as int], d, c)
+    &&& forall|i: int| 0 <= i < b1.len() && i != c as int && i != p as int ==> #[trigger] b1[i] == b0[i]
+    &&& r1 == (if p == EMPTY_REF { c } else { r0 })
+}
+
+
+pub open spec fn bypass_pre<K: Ord, V>(b0: Buf<K, V>, g0: G, r0: u32, d: int, c: u32, b1: Buf<K, V>, r1: u32) -> bool {
+    &&& sinv_skip(b0, g0, r0, g0.ng[d].pos) && in_tree(b0, g0, d)
+    &&& (b0[d].left == EMPTY_REF || b0[d].right == EMPTY_REF)
+    &&& c == (if b0[d].left != EMPTY_REF { b0[d].left } else { b0[d].right })
+    &&& (c != EMPTY_REF || b0[d].parent != EMPTY_REF)
+    &&& bypass_rel(b1, r1, b0, r0, d, c)
+    &&& forall|i: int| i != d ==> (#[trigger] in_tree(b1, removed_g(g0, d), i) == in_tree(b0, g0, i))
+    &&& !in_tree(b1, removed_g(g0, d), d)
+}
+
+pub proof fn lemma_bypass_left<K: Ord, V>(b0: Buf<K, V>, g0: G, r0: u32, d: int, c: u32, b1: Buf<K, V>, r1: u32)
+    requires bypass_pre(b0, g0, r0, d, c, b1, r1),
+    ensures forall|i: int| in_tree(b1, removed_g(g0, d), i) ==> #[trigger] left_ok(b1, removed_g(g0, d), i),
+{
+    let q = g0.ng[d].pos; let p = b0[d].parent; let g1 = removed_g(g0, d);
+    reveal(sinv_skip);
+    assert(node_ok(b0, g0, r0, d));
+    if c != EMPTY_REF { assert(node_ok(b0, g0, r0, c as int)); }
+    if p != EMPTY_REF { assert(node_ok(b0, g0, r0, p as int)); }
+    assert(g0.ord[q] as int == d);
+    assert forall|i: int| in_tree(b1, g1, i) implies #[trigger] left_ok(b1, g1, i) by {
+        assert(in_tree(b0, g0, i));
+        assert(node_ok(b0, g0, r0, i));
+        assert(g0.ng[i].pos != q);
+        if i != p as int && i != c as int { assert(b1[i] == b0[i]); }
+        let l = b0[i].left;
+        if l != EMPTY_REF {
+            assert(node_ok(b0, g0, r0, l as int));
+            assert(g0.ord[g0.ng[l as int].pos] as int == l as int);
+            if l as int != d { assert(in_tree(b1, g1, l as int) == in_tree(b0, g0, l as int)); }
+        }
+    }
+}
+
+pub proof fn lemma_bypass_right<K: Ord, V>(b0: Buf<K, V>, g0: G, r0: u32, d: int, c: u32, b1: Buf<K, V>, r1: u32)
+    requires bypass_pre(b0, g0, r0, d, c, b1, r1),
+    ensures forall|i: int| in_tree(b1, removed_g(g0, d), i) ==> #[trigger] right_ok(b1, removed_g(g0, d), i),
+{
+    let q = g0.ng[d].pos; let p = b0[d].parent; let g1 = removed_g(g0, d);
+    reveal(sinv_skip);
+    assert(node_ok(b0, g0, r0, d));
+    if c != EMPTY_REF { assert(node_ok(b0, g0, r0, c as int)); }
+    if p != EMPTY_REF { assert(node_ok(b0, g0, r0, p as int)); }
+    assert(g0.ord[q] as int == d);
+    assert forall|i: int| in_tree(b1, g1, i) implies #[trigger] right_ok(b1, g1, i) by {
+        assert(in_tree(b0, g0, i));
+        assert(node_ok(b0, g0, r0, i));
+        assert(g0.ng[i].pos != q);
+        if i != p as int && i != c as int { assert(b1[i] == b0[i]); }
+        let r = b0[i].right;
+        if r != EMPTY_REF {
+            assert(node_ok(b0, g0, r0, r as int));
+            assert(g0.ord[g0.ng[r as int].pos] as int == r as int);
+            if r as int != d { assert(in_tree(b1, g1, r as int) == in_tree(b0, g0, r as int)); }
+        }
+    }
+}
+
+pub proof fn lemma_bypass_parent<K: Ord, V>(b0: Buf<K, V>, g0: G, r0: u32, d: int, c: u32, b1: Buf<K, V>, r1: u32)
+    requires bypass_pre(b0, g0, r0, d, c, b1, r1),
+    ensures forall|i: int| in_tree(b1, removed_g(g0, d), i) ==> #[trigger] parent_ok(b1, removed_g(g0, d), r1, i),
+{
+    let q = g0.ng[d].pos; let p = b0[d].parent; let g1 = removed_g(g0, d);
+    reveal(sinv_skip);
+    assert(node_ok(b0, g0, r0, d));
+    if c != EMPTY_REF { assert(node_ok(b0, g0, r0, c as int)); }
+    if p != EMPTY_REF { assert(node_ok(b0, g0, r0, p as int)); }
+    assert forall|i: int| in_tree(b1, g1, i) implies #[trigger] parent_ok(b1, g1, r1, i) by {
+        assert(in_tree(b0, g0, i));
+        assert(node_ok(b0, g0, r0, i));
+        if i != p as int && i != c as int { assert(b1[i] == b0[i]); }
+        let pp = b0[i].parent;
+        if pp != EMPTY_REF {
+            assert(node_ok(b0, g0, r0, pp as int));
+            if pp as int != d { assert(in_tree(b1, g1, pp as int) == in_tree(b0, g0, pp as int)); }
+        }
+    }
+}
+
+// structure after bypassing d: its position is removed from the order and every range closes up
+#[verifier::rlimit(200)]
+pub proof fn lemma_bypass_struct<K: Ord, V>(b0: Buf<K, V>, g0: G, r0: u32, d: int, c: u32, b1: Buf<K, V>, r1: u32)
+    requires
+        sinv_skip(b0, g0, r0, g0.ng[d].pos), in_tree(b0, g0, d),
+        b0[d].left == EMPTY_REF || b0[d].right == EMPTY_REF,
+        c == (if b0[d].left != EMPTY_REF { b0[d].left } else { b0[d].right }),
+        c != EMPTY_REF || b0[d].parent != EMPTY_REF,
+        bypass_rel(b1, r1, b0, r0, d, c),
+    ensures
+        sinv(b1, removed_g(g0, d), r1),
+        same_membership(b1, removed_g(g0, d), b0, g0, d),
+        same_entities(b1, b0),
+{
+    let q = g0.ng[d].pos;
+    let p = b0[d].parent;
+    let g1 = removed_g(g0, d);
+    reveal(sinv_skip); reveal(sinv);
+    assert(node_ok(b0, g0, r0, d));
+    if c != EMPTY_REF { assert(node_ok(b0, g0, r0, c as int)); }
+    if p != EMPTY_REF { assert(node_ok(b0, g0, r0, p as int)); }
+    assert(g0.ord[q] as int == d);
+    assert forall|j: int| 0 <= j < g1.ord.len() implies 0 <= (#[trigger] g1.ord[j]) as int && (g1.ord[j] as int) < b1.len() && g1.ng[g1.ord[j] as int].pos == j by {
+        if j < q { assert(g1.ord[j] == g0.ord[j]); } else { assert(g1.ord[j] == g0.ord[j + 1]); }
+    }
+    assert forall|i: int| i != d implies (#[trigger] in_tree(b1, g1, i) == in_tree(b0, g0, i)) by {
+        if in_tree(b0, g0, i) {
+            let pi = g0.ng[i].pos;
+            if pi < q { assert(g1.ord[pi] == g0.ord[pi]); } else { assert(g1.ord[pi - 1] == g0.ord[pi]); }
+        }
+        if in_tree(b1, g1, i) {
+            let pj = g1.ng[i].pos;
+            if pj < q { assert(g1.ord[pj] == g0.ord[pj]); } else { assert(g1.ord[pj] == g0.ord[pj + 1]); }
+        }
+    }
+    assert(sorted(b1, g1)) by {
+        reveal(sorted); reveal(sorted_skip);
+        assert forall|q1: int, q2: int| 0 <= q1 < q2 < g1.ord.len() && g1.ord[q1] != 0u32 && g1.ord[q2] != 0u32
+            implies key_lt(#[trigger] b1[g1.ord[q1] as int].entity.key, #[trigger] b1[g1.ord[q2] as int].entity.key) by {
+            let o1 = if q1 < q { q1 } else { q1 + 1 };
+            let o2 = if q2 < q { q2 } else { q2 + 1 };
+            assert(g1.ord[q1] == g0.ord[o1]);
+            assert(g1.ord[q2] == g0.ord[o2]);
+            assert(key_lt(b0[g0.ord[o1] as int].entity.key, b0[g0.ord[o2] as int].entity.key));
+        }
+    }
+    if c != EMPTY_REF { assert(in_tree(b1, g1, c as int) == in_tree(b0, g0, c as int)); }
+    if p != EMPTY_REF { assert(in_tree(b1, g1, p as int) == in_tree(b0, g0, p as int)); }
+    lemma_bypass_left(b0, g0, r0, d, c, b1, r1);
+    lemma_bypass_right(b0, g0, r0, d, c, b1, r1);
+    lemma_bypass_parent(b0, g0, r0, d, c, b1, r1);
+    assert forall|i: int| in_tree(b1, g1, i) implies #[trigger] node_ok(b1, g1, r1, i) by {
+        assert(in_tree(b0, g0, i));
+        assert(node_ok(b0, g0, r0, i));
+        assert(g0.ng[i].pos != q);
+        assert(range_ok(g1, i));
+    }
+}
+
+// colours after splicing out a node d with exactly one child c: d is black and c a red leaf (forced by the
+// colour invariant); c inherits d's ghost black height as a deficit
+pub proof fn lemma_splice<K: Ord, V>(b0: Buf<K, V>, g0: G, r0: u32, d: int, b1: Buf<K, V>, r1: u32) -> (g1: G)
+    requires
+        sinv_skip(b0, g0, r0, g0.ng[d].pos), cinv(b0, g0, -1), in_tree(b0, g0, d),
+        !in_tree(b0, g0, 0),
+        (b0[d].left == EMPTY_REF) != (b0[d].right == EMPTY_REF),
+        bypass_rel(b1, r1, b0, r0, d, if b0[d].left != EMPTY_REF { b0[d].left } else { b0[d].right }),
+    ensures
+        ({
+            let c = if b0[d].left != EMPTY_REF { b0[d].left } else { b0[d].right };
+            let gr = removed_g(g0, d);
+            &&& g1 == (G { ord: gr.ord, ng: gr.ng.update(c as int, NG { bh: g0.ng[d].bh, ..gr.ng[c as int] }) })
+            &&& sinv(b1, g1, r1) && cinv_def(b1, g1, c as int) && in_tree(b1, g1, c as int)
+            &&& nil_under(g1, c as int)
+            &&& !in_tree(b1, g1, 0)
+        }),
+        same_membership(b1, g1, b0, g0, d),
+        same_entities(b1, b0),
+{
+    let c = if b0[d].left != EMPTY_REF { b0[d].left } else { b0[d].right };
+    let p = b0[d].parent;
+    let gr = removed_g(g0, d);
+    let g1 = G { ord: gr.ord, ng: gr.ng.update(c as int, NG { bh: g0.ng[d].bh, ..gr.ng[c as int] }) };
+    assert(link_in_tree(b0, g0, c) && c as int != d && g0.ng.len() == b0.len()) by {
+        reveal(sinv_skip);
+        assert(node_ok(b0, g0, r0, d));
+    }
+    lemma_bypass_struct(b0, g0, r0, d, c, b1, r1);
+    assert(gr.ng.len() == g0.ng.len());
+    lemma_sinv_same_struct(b1, g1, b1, gr, r1);
+    assert forall|i: int| (#[trigger] in_tree(b1, g1, i)) == in_tree(b1, gr, i) by { }
+    assert forall|i: int| i != d implies (#[trigger] in_tree(b1, g1, i) == in_tree(b0, g0, i)) by {
+        assert(in_tree(b1, gr, i) == in_tree(b0, g0, i));
+    }
+    assert(cinv_def(b1, g1, c as int)) by {
+        reveal(sinv_skip); reveal(cinv); reveal(cinv_def);
+        assert(node_ok(b0, g0, r0, d));
+        assert(node_ok(b0, g0, r0, c as int));
+        assert(color_ok(b0, g0, d, -1));
+        assert(color_ok(b0, g0, c as int, -1));
+        if p != EMPTY_REF { assert(node_ok(b0, g0, r0, p as int)); assert(color_ok(b0, g0, p as int, -1)); }
+        let cl = b0[c as int].left; let cr = b0[c as int].right;
+        if cl != EMPTY_REF { assert(node_ok(b0, g0, r0, cl as int)); assert(color_ok(b0, g0, cl as int, -1)); }
+        if cr != EMPTY_REF { assert(node_ok(b0, g0, r0, cr as int)); assert(color_ok(b0, g0, cr as int, -1)); }
+        assert(color_def(b1, g1, c as int));
+        assert forall|i: int| in_tree(b1, g1, i) && i != c as int implies #[trigger] color_ok(b1, g1, i, c as int) by {
+            assert(in_tree(b0, g0, i));
+            assert(node_ok(b0, g0, r0, i));
+            assert(color_ok(b0, g0, i, -1));
+            if i != p as int { assert(b1[i] == b0[i]); }
+        }
+    }
+    assert(d != 0);
+    assert(in_tree(b1, g1, 0) == in_tree(b0, g0, 0));
+    assert(b1.len() > 0) by { reveal(sinv); }
+    assert(!in_tree(b1, g1, 0));
+    assert(nil_under(g1, c as int));
+    assert(in_tree(b1, g1, c as int));
+    g1
+}
+
+pub open spec fn nil_node<K, V>(old0: Node<K, V>, parent: u32) -> Node<K, V> {
+    Node { parent: parent, left: EMPTY_REF, right: EMPTY_REF, color: Color::Red, entity: old0.entity }
+}
+
+// a black leaf d (not the root) is replaced by the sentinel: slot 0 takes d's position in the order and
+// carries d's black height as a deficit
+#[verifier::rlimit(80)]
+pub proof fn lemma_nil_subst<K: Ord, V>(b0: Buf<K, V>, g0: G, r0: u32, d: int, b1: Buf<K, V>) -> (g1: G)
+    requires
+        sinv_skip(b0, g0, r0, g0.ng[d].pos), cinv(b0, g0, -1), in_tree(b0, g0, d),
+        !in_tree(b0, g0, 0), d != 0,
+        b0[d].left == EMPTY_REF, b0[d].right == EMPTY_REF, b0[d].color == Color::Black,
+        b0[d].parent != EMPTY_REF,
+        b1 =~= b0.update(0, nil_node(b0[0], b0[d].parent)).update(b0[d].parent as int, unlink_child(b0[b0[d].parent as int], d, 0u32)),
+    ensures
+        g1 == (G { ord: g0.ord.update(g0.ng[d].pos, 0u32),
+                   ng: g0.ng.update(0, NG { pos: g0.ng[d].pos, a: g0.ng[d].a, b: g0.ng[d].b, bh: g0.ng[d].bh }).update(d, NG { pos: -1, ..g0.ng[d] }) }),
+        sinv(b1, g1, r0), cinv_def(b1, g1, 0), in_tree(b1, g1, 0), nil_under(g1, 0),
+        !in_tree(b1, g1, d),
+        forall|i: int| i != d && i != 0 ==> (#[trigger] in_tree(b1, g1, i) == in_tree(b0, g0, i)),
+        forall|i: int| 0 < i < b1.len() ==> (#[trigger] b1[i]).entity == b0[i].entity,
+        b1.len() == b0.len(),
+{
+    let q = g0.ng[d].pos;
+    let p = b0[d].parent as int;
+    let g1 = G { ord: g0.ord.update(q, 0u32),
+                 ng: g0.ng.update(0, NG { pos: q, a: g0.ng[d].a, b: g0.ng[d].b, bh: g0.ng[d].bh }).update(d, NG { pos: -1, ..g0.ng[d] }) };
+    reveal(sinv_skip); reveal(sinv); reveal(cinv); reveal(cinv_def);
+    assert(node_ok(b0, g0, r0, d));
+    assert(node_ok(b0, g0, r0, p));
+    assert(color_ok(b0, g0, d, -1));
+    assert(color_ok(b0, g0, p, -1));
+    assert(g0.ord[q] as int == d);
+    assert(p != 0) by { assert(in_tree(b0, g0, p)); }
+    assert forall|i: int| i != d && i != 0 implies (#[trigger] in_tree(b1, g1, i) == in_tree(b0, g0, i)) by {
+        if in_tree(b0, g0, i) { assert(g0.ord[g0.ng[i].pos] as int == i); }
+    }
+    assert(sorted(b1, g1)) by {
+        reveal(sorted); reveal(sorted_skip);
+        assert forall|q1: int, q2: int| 0 <= q1 < q2 < g1.ord.len() && g1.ord[q1] != 0u32 && g1.ord[q2] != 0u32
+            implies key_lt(#[trigger] b1[g1.ord[q1] as int].entity.key, #[trigger] b1[g1.ord[q2] as int].entity.key) by {
+            assert(q1 != q && q2 != q);
+            assert(g1.ord[q1] == g0.ord[q1]);
+            assert(g1.ord[q2] == g0.ord[q2]);
+            assert(key_lt(b0[g0.ord[q1] as int].entity.key, b0[g0.ord[q2] as int].entity.key));
+        }
+    }
+    assert(node_ok(b1, g1, r0, 0));
+    assert(node_ok(b1, g1, r0, p));
+    assert forall|i: int| in_tree(b1, g1, i) implies #[trigger] node_ok(b1, g1, r0, i) by {
+        if i != 0 {
+            assert(in_tree(b0, g0, i));
+            assert(node_ok(b0, g0, r0, i));
+            if i != p { assert(b1[i] == b0[i]); }
+            let l = b0[i].left; let r = b0[i].right; let pp = b0[i].parent;
+            if l != EMPTY_REF && l as int != d { assert(node_ok(b0, g0, r0, l as int)); assert(in_tree(b1, g1, l as int) == in_tree(b0, g0, l as int)); }
+            if r != EMPTY_REF && r as int != d { assert(node_ok(b0, g0, r0, r as int)); assert(in_tree(b1, g1, r as int) == in_tree(b0, g0, r as int)); }
+            if pp != EMPTY_REF { assert(node_ok(b0, g0, r0, pp as int)); assert(in_tree(b1, g1, pp as int) == in_tree(b0, g0, pp as int)); }
+        }
+    }
+    assert(color_def(b1, g1, 0));
+    assert forall|i: int| in_tree(b1, g1, i) && i != 0 implies #[trigger] color_ok(b1, g1, i, 0) by {
+        assert(in_tree(b0, g0, i));
+        assert(node_ok(b0, g0, r0, i));
+        assert(color_ok(b0, g0, i, -1));
+        if i != p { assert(b1[i] == b0[i]); }
+    }
+    g1
+}
+
+
+// ---------------------------------------------------------------------------------------------
+// pool partition, abstract entry sequence, public well-formedness
+
+pub open spec fn pinv<K, V>(buf: Buf<K, V>, g: G, unused: Seq<u32>) -> bool {
+    &&& forall|k: int| 0 <= k < unused.len() ==> 1 <= (#[trigger] unused[k]) as int && (unused[k] as int) < buf.len() && !in_tree(buf, g, unused[k] as int)
+    &&& forall|k1: int, k2: int| 0 <= k1 < k2 < unused.len() ==> unused[k1] != unused[k2]
+    &&& forall|i: int| 1 <= i < buf.len() && !in_tree(buf, g, i) ==> #[trigger] unused.contains(i as u32)
+    &&& g.ord.len() + unused.len() + (if in_tree(buf, g, 0) { 0int } else { 1int }) == buf.len()
+}
+
+pub open spec fn ents<K, V>(buf: Buf<K, V>, g: G) -> Seq<Entity<K, V>> {
+    Seq::new(g.ord.len(), |q: int| buf[g.ord[q] as int].entity)
+}
+
+pub open spec fn wf<K: Ord, V>(buf: Buf<K, V>, g: G, root: u32, unused: Seq<u32>) -> bool {
+    &&& sinv(buf, g, root)
+    &&& cinv(buf, g, -1)
+    &&& pinv(buf, g, unused)
+    &&& !in_tree(buf, g, 0)
+}
+
+
+// summary of the state after the physical unlink (and fix-up) of slot d, relative to the state sm before it
+pub open spec fn after_unlink<K: Ord, V>(b: Buf<K, V>, g: G, r: u32, b0: Buf<K, V>, g0: G, d: int) -> bool {
+    &&& sinv(b, g, r) && cinv(b, g, -1)
+    &&& !in_tree(b, g, 0)
+    &&& same_membership(b, g, b0, g0, d)
+    &&& g.ord == g0.ord.remove(g0.ng[d].pos)
+    &&& b.len() == b0.len()
+    &&& forall|i: int| 0 < i < b.len() ==> (#[trigger] b[i]).entity == b0[i].entity
+}
+
+
+// how the state sm at the unlink point relates to the entry state of delete_index(index): either nothing
+// changed and d == index, or d is the in-order successor whose entity was copied into slot index
+pub open spec fn move_rel<K, V>(bm: Buf<K, V>, b0: Buf<K, V>, g0: G, index: int, d: int) -> bool {
+    ||| (d == index && bm == b0)
+    ||| (g0.ng[d].pos == g0.ng[index].pos + 1 && d != index && bm =~= b0.update(index, Node { entity: b0[d].entity, ..b0[index] }))
+}
+
+pub proof fn lemma_delete_finish<K: Ord, V>(b0: Buf<K, V>, g0: G, r0: u32, u0: Seq<u32>, index: int, bm: Buf<K, V>, d: int,
+                                            b4: Buf<K, V>, g4: G, r4: u32, u1: Seq<u32>)
+    requires
+        wf(b0, g0, r0, u0), in_tree(b0, g0, index), in_tree(b0, g0, d),
+        move_rel(bm, b0, g0, index, d),
+        after_unlink(b4, g4, r4, bm, g0, d),
+        u1 == u0.push(d as u32),
+    ensures
+        wf(b4, g4, r4, u1),
+        ents(b4, g4) =~= ents(b0, g0).remove(g0.ng[index].pos),
+        b4.len() == b0.len(),
+        forall|i: int| 0 < i < b4.len() && i != index ==> (#[trigger] b4[i]).entity == b0[i].entity,
+{
+    let q = g0.ng[index].pos;
+    let qd = g0.ng[d].pos;
+    assert(b0.len() < EMPTY_REF && g0.ng.len() == b0.len()) by { reveal(sinv); }
+    assert(g0.ord[q] as int == index);
+    assert(g0.ord[qd] as int == d);
+    assert(d != 0 && 0 < d < b0.len());
+    assert forall|i: int| (#[trigger] in_tree(bm, g0, i)) == in_tree(b0, g0, i) by { }
+    // pool partition
+    assert forall|k: int| 0 <= k < u1.len() implies 1 <= (#[trigger] u1[k]) as int && (u1[k] as int) < b4.len() && !in_tree(b4, g4, u1[k] as int) by {
+        if k < u0.len() { assert(u1[k] == u0[k]); assert(!in_tree(b0, g0, u0[k] as int)); assert(u0[k] as int != d); }
+    }
+    assert forall|k1: int, k2: int| 0 <= k1 < k2 < u1.len() implies u1[k1] != u1[k2] by {
+        if k2 == u0.len() { assert(u1[k1] == u0[k1]); assert(!in_tree(b0, g0, u0[k1] as int)); }
+    }
+    assert forall|i: int| 1 <= i < b4.len() && !in_tree(b4, g4, i) implies #[trigger] u1.contains(i as u32) by {
+        if i == d { assert(u1[u0.len() as int] == i as u32); }
+        else {
+            assert(!in_tree(b0, g0, i));
+            assert(u0.contains(i as u32));
+            let k = choose|k: int| 0 <= k < u0.len() && u0[k] == i as u32;
+            assert(u1[k] == i as u32);
+        }
+    }
+    // abstract entries
+    assert forall|j: int| 0 <= j < g4.ord.len() implies ents(b4, g4)[j] == ents(b0, g0).remove(q)[j] by {
+        reveal(sinv);
+        if j < qd { assert(g4.ord[j] == g0.ord[j]); } else { assert(g4.ord[j] == g0.ord[j + 1]); }
+        let o = if j < qd { j } else { j + 1 };
+        assert(g0.ng[g0.ord[o] as int].pos == o);
+        assert(g0.ord[o] as int != 0);
+    }
+}
+
+pub proof fn lemma_same_ord_membership<K: Ord, V>(b1: Buf<K, V>, g1: G, r1: u32, b0: Buf<K, V>, g0: G, r0: u32)
+    requires sinv(b1, g1, r1), sinv(b0, g0, r0), g1.ord == g0.ord, b1.len() == b0.len(),
+    ensures forall|i: int| (#[trigger] in_tree(b1, g1, i)) == in_tree(b0, g0, i),
+{
+    reveal(sinv);
+    assert forall|i: int| (#[trigger] in_tree(b1, g1, i)) == in_tree(b0, g0, i) by {
+        if in_tree(b1, g1, i) { assert(g0.ng[g0.ord[g1.ng[i].pos] as int].pos == g1.ng[i].pos); }
+        if in_tree(b0, g0, i) { assert(g1.ng[g1.ord[g0.ng[i].pos] as int].pos == g0.ng[i].pos); }
+    }
 }
 
 // exact effect of rotate_left(x) on links, root and ghost ranges
@@ -1089,6 +1673,18 @@ pub proof fn lemma_del_case6_right<K: Ord, V>(b0: Buf<K, V>, g0: G, r0: u32, n: 
     g1
 }
 
+
+impl<K: Copy + Default, V: Clone + Default> Pool<K, V> {
+    #[inline(always)]
+    pub(super) fn put_back(&mut self, index: u32)
+        ensures
+            final(self).unused@ == old(self).unused@.push(index),
+            final(self).buffer == old(self).buffer,
+    {
+        self.unused.push(index)
+    }
+}
+
 impl<K: Copy + Ord + Default, V: Clone + Default> MapTree<K, V> {
     pub open spec fn buf(&self) -> Buf<K, V> { self.store.buffer@ }
 
@@ -1537,6 +2133,217 @@ impl<K: Copy + Ord + Default, V: Clone + Default> MapTree<K, V> {
             proof { lemma_sinv_same_struct(bm, self.g@, old(self).store.buffer@, old(self).g@, self.root); }
             self.rotate_right(p_index);
             proof { self.g@ = lemma_del_red_sibling_right(old(self).store.buffer@, old(self).g@, old(self).root, n_index as int, bm, self.store.buffer@, self.g@, self.root); }
+        }
+    }
+
+
+    #[inline]
+    fn create_nil_node(&mut self, parent: u32)
+        requires old(self).store.buffer@.len() > 0,
+        ensures
+            final(self).store.buffer@ =~= old(self).store.buffer@.update(0, nil_node(old(self).store.buffer@[0], parent)),
+            final(self).store.unused == old(self).store.unused,
+            final(self).root == old(self).root,
+            final(self).g == old(self).g,
+    {
+        let node = self.node_mut(NIL_INDEX);
+        node.parent = parent;
+        node.left = EMPTY_REF;
+        node.right = EMPTY_REF;
+        node.color = Color::Red;
+    }
+
+    #[inline]
+    fn find_left_minimum(&self, mut i: u32) -> (r: u32)
+        requires
+            sinv(self.store.buffer@, self.g@, self.root),
+            in_tree(self.store.buffer@, self.g@, i as int),
+        ensures
+            in_tree(self.store.buffer@, self.g@, r as int),
+            self.store.buffer@[r as int].left == EMPTY_REF,
+            self.g@.ng[r as int].pos == self.g@.ng[i as int].a,
+    {
+        let ghost i0 = i;
+        while self.node(i).left != EMPTY_REF
+            invariant
+                sinv(self.store.buffer@, self.g@, self.root),
+                in_tree(self.store.buffer@, self.g@, i as int),
+                self.g@.ng[i as int].a == self.g@.ng[i0 as int].a,
+            decreases range_len(self.g@, i as int),
+        {
+            proof { lemma_links(self.store.buffer@, self.g@, self.root, i as int); lemma_links(self.store.buffer@, self.g@, self.root, self.store.buffer@[i as int].left as int); }
+            i = self.node(i).left;
+        }
+        proof { lemma_links(self.store.buffer@, self.g@, self.root, i as int); }
+        i
+    }
+
+    #[inline]
+    fn remove_parents_child(&mut self, parent: u32, old_child: u32)
+        requires
+            (parent as int) < old(self).store.buffer@.len(),
+            old(self).store.buffer@[parent as int].left == old_child || old(self).store.buffer@[parent as int].right == old_child,
+        ensures
+            final(self).store.buffer@ =~= old(self).store.buffer@.update(parent as int, unlink_child(old(self).store.buffer@[parent as int], old_child as int, EMPTY_REF)),
+            final(self).store.unused == old(self).store.unused,
+            final(self).root == old(self).root,
+            final(self).g == old(self).g,
+    {
+        let p = self.node_mut(parent);
+        assert(p.left == old_child || p.right == old_child);
+
+        if p.left == old_child {
+            p.left = EMPTY_REF;
+        } else {
+            p.right = EMPTY_REF;
+        }
+    }
+
+    #[inline]
+    fn set_nil_parents_child(&mut self, parent: u32, old_child: u32)
+        requires
+            (parent as int) < old(self).store.buffer@.len(),
+            old(self).store.buffer@[parent as int].left == old_child || old(self).store.buffer@[parent as int].right == old_child,
+        ensures
+            final(self).store.buffer@ =~= old(self).store.buffer@.update(parent as int, unlink_child(old(self).store.buffer@[parent as int], old_child as int, 0u32)),
+            final(self).store.unused == old(self).store.unused,
+            final(self).root == old(self).root,
+            final(self).g == old(self).g,
+    {
+        let p = self.node_mut(parent);
+        assert(p.left == old_child || p.right == old_child);
+
+        if p.left == old_child {
+            p.left = NIL_INDEX;
+        } else {
+            p.right = NIL_INDEX;
+        }
+    }
+
+    #[inline]
+    fn fix_parents_nil_child(&mut self)
+        requires
+            old(self).store.buffer@.len() > 0,
+            (old(self).store.buffer@[0].parent as int) < old(self).store.buffer@.len(),
+            ({ let p = old(self).store.buffer@[0].parent as int; old(self).store.buffer@[p].left == 0u32 || old(self).store.buffer@[p].right == 0u32 }),
+        ensures
+            final(self).store.buffer@ =~= old(self).store.buffer@.update(old(self).store.buffer@[0].parent as int, unlink_child(old(self).store.buffer@[old(self).store.buffer@[0].parent as int], 0, EMPTY_REF)),
+            final(self).store.unused == old(self).store.unused,
+            final(self).root == old(self).root,
+            final(self).g == old(self).g,
+    {
+        let p_index = self.node(NIL_INDEX).parent;
+        let p = self.node_mut(p_index);
+        assert(p.left == NIL_INDEX || p.right == NIL_INDEX);
+
+        if p.left == NIL_INDEX {
+            p.left = EMPTY_REF;
+        } else {
+            p.right = EMPTY_REF;
+        }
+    }
+
+
+    #[verifier::rlimit(100)]
+    pub(super) fn delete_index(&mut self, index: u32)
+        requires
+            wf(old(self).store.buffer@, old(self).g@, old(self).root, old(self).store.unused@),
+            in_tree(old(self).store.buffer@, old(self).g@, index as int),
+        ensures
+            wf(final(self).store.buffer@, final(self).g@, final(self).root, final(self).store.unused@),
+            ents(final(self).store.buffer@, final(self).g@) =~= ents(old(self).store.buffer@, old(self).g@).remove(old(self).g@.ng[index as int].pos),
+            final(self).store.buffer@.len() == old(self).store.buffer@.len(),
+            forall|i: int| 0 < i < final(self).store.buffer@.len() && i != index as int ==> (#[trigger] final(self).store.buffer@[i]).entity == old(self).store.buffer@[i].entity,
+    {
+        proof { lemma_links(self.store.buffer@, self.g@, self.root, index as int); }
+        // Node has zero or one child
+        let mut delete_index= index;
+
+        let node = self.node(index);
+        let mut nd_left = node.left;
+        let mut nd_right = node.right;
+        let mut nd_parent = node.parent;
+        let mut nd_color = node.color;
+
+        // if two children replace node with it left minimum
+        if nd_left != EMPTY_REF && nd_right != EMPTY_REF {
+            let successor_index = self.find_left_minimum(nd_right);
+            proof { reveal(sinv); assert(node_ok(self.store.buffer@, self.g@, self.root, index as int)); lemma_links(self.store.buffer@, self.g@, self.root, successor_index as int); }
+            let successor = self.node(successor_index);
+            let entity = successor.entity.clone();
+            nd_parent = successor.parent;
+            nd_left = successor.left;
+            nd_right = successor.right;
+            nd_color = successor.color;
+
+            self.node_mut(index).entity = entity;
+            proof { lemma_move_up(old(self).store.buffer@, self.g@, self.root, index as int, successor_index as int, self.store.buffer@); }
+
+            delete_index = successor_index;
+        } else {
+            proof { lemma_sinv_to_skip(self.store.buffer@, self.g@, self.root, self.g@.ng[index as int].pos); }
+        }
+        let ghost sm = (self.store.buffer@, self.g@, self.root);
+        let ghost d = delete_index as int;
+        proof {
+            assert(move_rel(sm.0, old(self).store.buffer@, old(self).g@, index as int, d));
+            reveal(sinv_skip);
+            assert(node_ok(sm.0, sm.1, sm.2, d));
+            if nd_parent != EMPTY_REF { assert(node_ok(sm.0, sm.1, sm.2, nd_parent as int)); }
+        }
+
+        // only one child can be!
+
+        if nd_left != EMPTY_REF {
+            self.replace_parents_child(nd_parent, delete_index, nd_left);
+            proof { self.g@ = lemma_splice(sm.0, sm.1, sm.2, d, self.store.buffer@, self.root); }
+            let ghost s3 = (self.store.buffer@, self.g@, self.root);
+            self.fix_red_black_properties_after_delete(nd_left);
+            proof { lemma_same_ord_membership(self.store.buffer@, self.g@, self.root, s3.0, s3.1, s3.2); assert(after_unlink(self.store.buffer@, self.g@, self.root, sm.0, sm.1, d)); }
+        } else if nd_right != EMPTY_REF {
+            self.replace_parents_child(nd_parent, delete_index, nd_right);
+            proof { self.g@ = lemma_splice(sm.0, sm.1, sm.2, d, self.store.buffer@, self.root); }
+            let ghost s3 = (self.store.buffer@, self.g@, self.root);
+            self.fix_red_black_properties_after_delete(nd_right);
+            proof { lemma_same_ord_membership(self.store.buffer@, self.g@, self.root, s3.0, s3.1, s3.2); assert(after_unlink(self.store.buffer@, self.g@, self.root, sm.0, sm.1, d)); }
+        } else if nd_parent == EMPTY_REF {
+            self.root = EMPTY_REF;
+            proof { self.g@ = lemma_remove_root_leaf(sm.0, sm.1, sm.2, d); assert(after_unlink(self.store.buffer@, self.g@, self.root, sm.0, sm.1, d)); }
+        } else {
+            // Node has no children -->
+            // * node is red --> just remove it
+            // * node is black --> replace it by a temporary NIL node (needed to fix the R-B rules)
+            if nd_color == Color::Black {
+                self.create_nil_node(nd_parent);
+                self.set_nil_parents_child(nd_parent, delete_index);
+                proof { self.g@ = lemma_nil_subst(sm.0, sm.1, sm.2, d, self.store.buffer@); }
+                let ghost s3 = (self.store.buffer@, self.g@, self.root);
+                self.fix_red_black_properties_after_delete(NIL_INDEX);
+                let ghost s2 = (self.store.buffer@, self.g@, self.root);
+                proof {
+                    lemma_same_ord_membership(s2.0, s2.1, s2.2, s3.0, s3.1, s3.2);
+                    lemma_sinv_to_skip(s2.0, s2.1, s2.2, s2.1.ng[0].pos);
+                    reveal(sinv);
+                    assert(node_ok(s2.0, s2.1, s2.2, 0));
+                }
+                self.fix_parents_nil_child();
+                proof {
+                    self.g@ = lemma_remove_red_leaf(s2.0, s2.1, s2.2, 0, self.store.buffer@);
+                    assert(self.g@.ord =~= sm.1.ord.remove(sm.1.ng[d].pos));
+                    assert(after_unlink(self.store.buffer@, self.g@, self.root, sm.0, sm.1, d));
+                }
+            } else {
+                self.remove_parents_child(nd_parent, delete_index);
+                proof { self.g@ = lemma_remove_red_leaf(sm.0, sm.1, sm.2, d, self.store.buffer@); assert(after_unlink(self.store.buffer@, self.g@, self.root, sm.0, sm.1, d)); }
+            }
+        }
+
+        let ghost s4 = (self.store.buffer@, self.g@, self.root);
+        proof { assert(after_unlink(s4.0, s4.1, s4.2, sm.0, sm.1, d)); }
+        self.store.put_back(delete_index);
+        proof {
+            lemma_delete_finish(old(self).store.buffer@, old(self).g@, old(self).root, old(self).store.unused@, index as int, sm.0, d,
+                                self.store.buffer@, self.g@, self.root, self.store.unused@);
         }
     }
 
